@@ -4,6 +4,7 @@ from props import common, mix, sched
 
 THM = "NextestModel.Thm.C08"
 GEN = []
+CHECK_MODULES = ["NextestModel.Lemmas.Sched", "NextestModel.Model.Sched", "NextestModel.Model.Priority"]
 TRUSTED = ["model: Model/Sched, read from future-queue 0.4.0's source and corresponded against the real crate (third-party code: modelled and corresponded, not assumed)",
            "that an OS process does not outlive its future is C11's group-kill argument plus the end-to-end engine"]
 ASSUMPTIONS = ["weights are threads-required computed against the effective test-thread count; that wiring (imp.rs) is exercised end-to-end only"]
